@@ -15,11 +15,11 @@ S = "sanitize.go/func/"
 A = re.escape(S + "*Policy.sanitizeAttrs/")
 L = re.escape(S + "*Policy.sanitize/")
 TABLE = [
-    (re.escape(S) + r"\*Policy\.(Sanitize|SanitizeBytes|SanitizeReader|SanitizeReaderToWriter|sanitizeWithBuff)$", "C15 C16"),
+    (re.escape(S) + r"\*Policy\.(Sanitize|SanitizeBytes|SanitizeReader|SanitizeReaderToWriter|sanitizeWithBuff)$", "C01 C02 C03 C04 C05 C06 C07 C08 C09 C10 C11 C12 C14 C15 C16 C20"),
     (r"sanitize\.go/(func/\*asStringWriter\.WriteString|type/asStringWriter|type/stringWriterWriter)$", "C15 C16"),
     (L + r"around-switch$", "C01 C02 C05 C06 C07 C08 C09 C14 C15 C16"),
     (L + r"case:html\.DoctypeToken$", "C01"),
-    (L + r"case:html\.CommentToken$", "C01 C16"),
+    (L + r"case:html\.CommentToken$", "C01 C05 C06 C08 C09 C16"),
     (L + r"case:html\.StartTagToken$", "C01 C02 C05 C06 C07 C08 C09 C14"),
     (L + r"case:html\.EndTagToken$", "C01 C05 C06 C07 C08 C09 C14"),
     (L + r"case:html\.SelfClosingTagToken$", "C01 C02 C05 C07 C08 C09 C14"),
@@ -56,7 +56,24 @@ INVENTORY = ["C13", "C17"]   # whole-policy properties: no new declaration, no n
 PROPS = ["C%02d" % i for i in range(1, 21)]
 
 
+def regenerate():
+    """BM/Gen is rewritten by every check run, possibly against a tree with an uncommitted change: the pins are
+    taken from a fresh translation of the committed tree"""
+    env = dict(os.environ, GOFLAGS="-mod=mod", GOPROXY="off", GOSUMDB="off", GOTOOLCHAIN="local")
+    root = os.path.dirname(os.path.dirname(os.path.abspath(__file__)))
+    exe = os.path.join(root, "work", "bin", "extract")
+    subprocess.run(["go", "build", "-tags", "verif", "-o", exe, "./cmd/extract"], cwd=os.path.join(root, "go"), env=env, check=True)
+    gen = os.path.dirname(GEN)
+    for f in os.listdir(gen):
+        os.remove(os.path.join(gen, f))
+    subprocess.run([exe, "-out", gen, "-work", os.path.join(root, "work")], cwd=os.path.join(root, "go"), env=env, check=True, stdout=subprocess.DEVNULL)
+
+
 def main():
+    dirty = subprocess.run(["git", "-C", "/repo", "status", "--porcelain"], capture_output=True, text=True).stdout.strip()
+    if dirty:
+        sys.exit("/repo has uncommitted changes: pins are taken from committed states only")
+    regenerate()
     src = open(GEN).read()
     src = src.split("def srcState")[0]
     units = re.findall(r'^  \("((?:[^"\\]|\\.)*)", "([0-9a-f]+)"\),?$', src, re.M)
